@@ -196,9 +196,9 @@ func (env *aenv) wrapTo(t types.Type, v aval) aval {
 type outcome struct {
 	kind   string // "return", "break", "continue", "fallout", "goto"
 	label  string
-	vals   []aval       // returned constants (for kind return, when evaluable)
-	clause ast.Node     // the case clause / branch that was selected last
-	stmts  []ast.Stmt   // the straight-line statements executed (assignments etc.)
+	vals   []aval     // returned constants (for kind return, when evaluable)
+	clause ast.Node   // the case clause / branch that was selected last
+	stmts  []ast.Stmt // the straight-line statements executed (assignments etc.)
 	// values appended by `x = append(x, v…)` statements, evaluated when the
 	// statement was reached (-1: not evaluable); appendTo names the slice
 	appends  []int64
@@ -287,9 +287,15 @@ func (env *aenv) stmt(s ast.Stmt, lenient bool, out *outcome) bool {
 			}
 		}
 		var tag *aval
+		symbolicTag := false
 		if s.Tag != nil {
-			t := env.eval(s.Tag)
-			tag = &t
+			if t, ok := env.tryEval(s.Tag); ok {
+				tag = &t
+			} else {
+				// the tag itself has no value here (a free variable): decide each case as the
+				// comparison `tag == case`, which the hook may be able to answer
+				symbolicTag = true
+			}
 		}
 		var def *ast.CaseClause
 		var sel *ast.CaseClause
@@ -300,6 +306,13 @@ func (env *aenv) stmt(s ast.Stmt, lenient bool, out *outcome) bool {
 				continue
 			}
 			for _, e := range cl.List {
+				if symbolicTag {
+					if env.eval(&ast.BinaryExpr{X: s.Tag, Op: token.EQL, Y: e}).b {
+						sel = cl
+						break
+					}
+					continue
+				}
 				v := env.eval(e)
 				if tag != nil {
 					if v.isBool == tag.isBool && v.i == tag.i && v.b == tag.b {
